@@ -24,4 +24,19 @@ META = {
         "design_ref": "DESIGN.md section 6 C12, Appendix F.3",
         "note": "Trusted: invariant strength, model data plane contract (one report per successful remove/query), engine + z3. Bound: <= 2 PDRs x <= 2 (quick) / 3 (thorough) URR ids, one rule IE per request; histories of depth 3 (quick) / 4 (thorough) from an empty session.",
     },
+    "C01": {
+        "text": "Bounded model checking of request histories through the real PFCP handlers against a model data plane: every create/update/query data-plane call takes a fresh symbolic fault Boolean, so one symbolic run covers every subset of failing calls; rule ids are unconstrained symbolic values (colliding, repeated, never-created, removed-twice ids are inside the quantifier). After every step the data-plane call log and rule table are checked against a ghost built from the requests: calls only for the addressed live session, creates only for ids named by a Create IE, update/remove/query only for rules created and not yet removed, every rule belongs to a live session, and a session that ends (deletion, re-association, SEID-0 report response) leaves no rule behind.",
+        "design_ref": "DESIGN.md section 6 C01, Appendix F.1",
+        "note": "Trusted: model data plane zzDP (Appendix F.1), engine + z3, native replay of witnesses. Bound: 3 (quick) / 4 (thorough) steps after an association, one shard per rule kind plus a PDR+URR shard (one step shorter).",
+    },
+    "C05": {
+        "text": "Frame check decided by the solver: a bystander session with rules of all kinds, a buffered packet and a UR-SEQN counter is snapshotted, one arbitrary request/notification is processed for an acting session whose rule ids and CP SEID are symbolic and may coincide with the bystander's, and the bystander's session state, queue and data-plane rules are asserted unchanged with every triggered data-plane call tagged with the acting SEID; re-association and SEID-0 report responses must remove exactly the sessions the statement names; takeover followed by re-association is checked over all three node ids.",
+        "design_ref": "DESIGN.md section 6 C05",
+        "note": "Trusted: as C01. Known findings (open): takeover via PfcpServer.UpdateNodeID renames the whole node / overwrites an existing association (5 scenario keys in known_findings.json). Bound: two sessions, two nodes, single step (plus delete+reuse, takeover+re-association).",
+    },
+    "C11": {
+        "text": "Bounded model checking of histories over the three UR-SEQN carriers with a ghost counter per URR incarnation: URR 1 starts at an arbitrary symbolic sequence position (so the step is inductive in the counter value), the data plane may return several reports for one URR in one response, and every UR-SEQN IE decoded from the sent datagrams must equal the ghost value, which then increments; re-creation resets it; a second harness checks independence across sessions with equal URR ids.",
+        "design_ref": "DESIGN.md section 6 C11, Appendix F.4",
+        "note": "Trusted: relaxed model data plane, reference Usage Report decoder in the harness, engine + z3. Bound: 3 (quick) / 4 (thorough) steps, <= 2 URRs.",
+    },
 }
